@@ -254,7 +254,7 @@ theorem pr_same (ef : Array Int) (F : Int) (i : Nat) (h : Hmm) :
 
 /-- the HMMs after the renormalisation test -/
 def hm0Of (s : Search) : List Hmm :=
-  if s.best - 0x300000 < worst then s.hmms.map (normalize s.best) else s.hmms
+  if renormDue s.best then s.hmms.map (normalize s.best) else s.hmms
 
 theorem step_hmms (tps : Array (Array Int)) (sf ef : Array Int) (sen : Array Int) (F : Int) (s : Search) :
     (step tps sf ef sen F s).1.hmms = relabel F (advance tps sf ef sen F (hm0Of s)) := rfl
@@ -275,7 +275,7 @@ theorem hm0_get (sf ef : Array Int) (rows : List (List Tok)) (f : Nat) (s : Sear
     (∀ i h0, (hm0Of s)[i]? = some h0 → K sf ef rows f s.best i h0 ∧
       ∃ h, s.hmms[i]? = some h ∧ h0.frame = h.frame ∧ (h.frame = (f : Int) → h0 = h)) ∧
     (∀ (i : Nat) (h : Hmm), s.hmms[i]? = some h → h.frame = (f : Int) → (hm0Of s)[i]? = some h) := by
-  by_cases hfire : s.best - 0x300000 < worst
+  by_cases hfire : renormDue s.best
   · have e : hm0Of s = s.hmms.map (normalize s.best) := by simp only [hm0Of, hfire, if_true]
     rw [e]
     refine ⟨by simp, ?_, ?_⟩
@@ -287,12 +287,12 @@ theorem hm0_get (sf ef : Array Int) (rows : List (List Tok)) (f : Nat) (s : Sear
         rw [hl] at he
         simp only [Option.map_some, Option.some.injEq] at he
         rw [← he]
-        exact ⟨k_normalize sf ef rows f s.best i a (hK i a hl) hfire hB, a, rfl, normalize_frame _ _,
-          fun hfe => normalize_active_id sf ef rows f s.best i a (hK i a hl) hfire hB hfe⟩
+        exact ⟨k_normalize sf ef rows f s.best i a (hK i a hl) hfire.2 hB, a, rfl, normalize_frame _ _,
+          fun hfe => normalize_active_id sf ef rows f s.best i a (hK i a hl) hfire.2 hB hfe⟩
     · intro i h hl hfe
       rw [List.getElem?_map, hl]
       simp only [Option.map_some, Option.some.injEq]
-      exact normalize_active_id sf ef rows f s.best i h (hK i h hl) hfire hB hfe
+      exact normalize_active_id sf ef rows f s.best i h (hK i h hl) hfire.2 hB hfe
   · have e : hm0Of s = s.hmms := by simp only [hm0Of, hfire, if_false]
     rw [e]
     exact ⟨rfl, fun i h0 he => ⟨hK i h0 he, h0, he, rfl, fun _ => rfl⟩, fun i h hl _ => hl⟩
@@ -881,7 +881,7 @@ theorem runAux_V (tps : Array (Array Int)) (sf ef : Array Int) (sens : Nat → A
     have e : f + (sen :: rest).length = f + 1 + rest.length := by simp only [List.length_cons]; omega
     rw [e]
     exact ih (step tps sf ef sen (f : Int) s).1 (f + 1) (rows ++ [(step tps sf ef sen (f : Int) s).2])
-      (rn || decide (s.best - 0x300000 < worst)) (by rw [k2]; exact hn) (by simp [hl])
+      (rn || decide (renormDue s.best)) (by rw [k2]; exact hn) (by simp [hl])
       (fun j hj => by
         have := hs (j + 1) (by simp; omega)
         have e2 : f + (j + 1) = f + 1 + j := by omega
